@@ -50,6 +50,8 @@ RULE_VOCAB = [
     ("import_anything", None), ("be_imported_by_anything", None),
     ("are_named", ["r.b", "r.c"]), ("have_name_matching", r"^zzz$"),
 ]
+# an empty batch is no subject / object at all (only in the chain mutations, to keep the exhaustive sweep's size)
+EMPTY_BATCHES = [("are_named", []), ("are_sub_modules_of", [])]
 
 
 def plan(tier, seed):
@@ -248,6 +250,11 @@ def run_shard(spec, acc):
                 continue
             run_rule_seq(chain, acc)
             acc.count("canonical_chains")
+            for pos in (1, len(chain) - 1):
+                if chain[pos][0] in ("are_named", "are_sub_modules_of", "have_name_matching"):
+                    for eb in EMPTY_BATCHES:
+                        run_rule_seq(chain[:pos] + [eb] + chain[pos + 1 :], acc)
+                        acc.count("rule_histories_with_an_empty_batch")
             for kind, m in mutations(chain, RULE_VOCAB):
                 if run_rule_seq(m, acc) is not None:
                     acc.evaluated()
@@ -429,6 +436,15 @@ def misspelt(spec, acc):
         sf = (fk, bad) if pos in ("subject", "both") else ("named", good)
         of = (fk, bad) if pos in ("object", "both") else ("named", good)
         cfg = {"verb": "should_not" if anything else verb, "dir": d, "exc": exc, "subs": [sf], "objs": [] if anything else [of], "anything": anything}
+        if anything and fk != "regex" and real in present and rnd.random() < 0.6:
+            # 'anything' over a batch in which the absent name merely extends an existing subject's name
+            bad2 = bad if kind in ("prefix-sibling", "too-deep") else real + rnd.choice(["_v2", "b", "2"])
+            if bad2 not in present:
+                members = [(fk, real), (fk, bad2)]
+                if rnd.random() < 0.5:
+                    members.reverse()
+                cfg["subs"] = members
+                acc.count("anything_batches_with_one_misspelt_member")
         if rnd.random() < 0.35 and not anything and fk != "regex":
             # a batch in which only one member is misspelt
             # ... often next to the very module it is a misspelling / a too-deep descendant of
@@ -578,7 +594,7 @@ def floors(acc, tier):
         for c in need:
             if acc.hists.get(hist, {}).get(c, 0) == 0:
                 why.append(f"{hist}: class {c} never observed")
-    for c, n in (("c13_rule_evaluations", 5000), ("c13_layer_evaluations", 500), ("c13_diagram_evaluations", 50), ("c13_entry_point_invalid_calls", 50), ("c13_unknown_module_evaluations", 300), ("c13_unmatched_regex_evaluations", 50), ("c13_calls_that_must_raise", 100), ("several_patterns_one_unmatched", 50), ("c13_diagram_unknown_component_evaluations", 50), ("diagram_rules_reconfigured_after_application", 50), ("batches_with_one_misspelt_member", 50)):
+    for c, n in (("c13_rule_evaluations", 5000), ("c13_layer_evaluations", 500), ("c13_diagram_evaluations", 50), ("c13_entry_point_invalid_calls", 50), ("c13_unknown_module_evaluations", 300), ("c13_unmatched_regex_evaluations", 50), ("c13_calls_that_must_raise", 100), ("several_patterns_one_unmatched", 50), ("c13_diagram_unknown_component_evaluations", 50), ("diagram_rules_reconfigured_after_application", 50), ("batches_with_one_misspelt_member", 50), ("anything_batches_with_one_misspelt_member", 10), ("rule_histories_with_an_empty_batch", 50)):
         if acc.counters[c] < n:
             why.append(f"{c}: only {acc.counters[c]}")
     acc.flags["exhaustive"] = all(acc.flags.get(f) for f in ("exhaustive_rule_sequences", "exhaustive_layer_sequences", "exhaustive_mutations", "exhaustive_entry_options"))
